@@ -75,7 +75,9 @@ def main():
         vio = [l for l in out.splitlines() if l.startswith("VIOLATION")]
         first = [l for l in out.splitlines() if re.match(r"^(E[123]-VIOLATION|C20 violation)", l)]
         meta.setdefault("property", prop)
-        meta.setdefault("runs", {})[tier] = {
+        if not isinstance(meta.get("runs"), dict):  # a hand-written list of earlier runs: keep it, do not stop after the check has run
+            meta["runs"] = {"earlier": meta["runs"]} if meta.get("runs") else {}
+        meta["runs"][tier] = {
             "procedure": "git -C /repo apply %s; ./check %s %s; git -C /repo checkout -- ." % (os.path.relpath(patch_of(i), VERIF), prop, tier),
             "repo_head": sh("git rev-parse --short HEAD", REPO)[1].strip(),
             "verif_head": sh("git rev-parse --short HEAD", VERIF)[1].strip(),
